@@ -3234,3 +3234,71 @@ twin('C19', 'maxkey-in-bucket-test-non-strict', FSIPY, 'fsIndex.maxKey',
             assert tree
             biggest_suffix = tree.maxKey()
 ''')
+
+# ---- round 11
+breaker('C13', 'sweep-cutoff-read-per-directory', 'C13.R20', BLOBPY,
+        'BlobStorage._packNonUndoing',
+        '''            files, newer = self._blob_sweep_files(oid_path, cutoff)''',
+        '''            cutoff = self.__storage.lastTransaction()
+            files, newer = self._blob_sweep_files(oid_path, cutoff)''')
+breaker('C13', 'scheduled-undo-copy-skipped-for-a-dirty-blob', 'C13.R21', FSPY,
+        'FileStorage._txn_undo_write',
+        '''        for oid, userial in blobs:
+            tmp = mktemp(dir=self.fshelper.temp_dir)''',
+        '''        for oid, userial in blobs:
+            if (oid, self._tid) in self.dirty_oids:
+                continue
+            tmp = mktemp(dir=self.fshelper.temp_dir)''')
+breaker('C13', 'dropped-backpointer-record-not-followed', 'C13.R22', PACKPY,
+        'FileStoragePacker.copyDataRecords',
+        '''                    if h.plen:
+                        data = self._file.read(h.plen)
+                    else:
+                        data = self.fetchDataViaBackpointer(h.oid, h.back)
+                    if data and self._storage.is_blob_record(data):''',
+        '''                    data = self._file.read(h.plen) if h.plen else None
+                    if data and self._storage.is_blob_record(data):''')
+breaker('C13', 'undo-copy-left-behind-on-failure', 'C13.R23', FSPY,
+        'FileStorage._txn_undo_write',
+        '''            except BaseException:
+                # Don't leave a (partial) copy behind in the blob directory.
+                if os.path.exists(tmp):
+                    os.remove(tmp)
+                raise''',
+        '''            except BaseException:
+                raise''')
+twin('C13', 'undo-copy-removed-in-a-finally', FSPY,
+     'FileStorage._txn_undo_write',
+     '''            except BaseException:
+                # Don't leave a (partial) copy behind in the blob directory.
+                if os.path.exists(tmp):
+                    os.remove(tmp)
+                raise''',
+     '''            finally:
+                if os.path.exists(tmp):
+                    os.remove(tmp)''')
+breaker('C06', 'undo-records-indexed-while-written', 'C06.R15', FSPY,
+        'FileStorage._txn_undo_write',
+        '''                tindex[h.oid] = here
+                here += new.recordlen()''',
+        '''                tindex[h.oid] = here
+                self._tindex[h.oid] = here
+                here += new.recordlen()''')
+breaker('C12', 'abort-savepoint-invalidates-before-switching-back', 'C12.R13',
+        CONNPY, 'Connection._abort_savepoint',
+        '''        self._storage = self._normal_storage
+        self._savepoint_storage = None
+''', '''        self._cache.invalidate(src.index)
+        self._storage = self._normal_storage
+        self._savepoint_storage = None
+''')
+breaker('C15', 'future-test-against-the-clock-only', 'C15.R7', DBPY, 'DB.open',
+        '''            before > self.lastTransaction() and
+                before > getTID(self.lastTransaction(), None)):''',
+        '''            before > utils.newTid(None) and
+                before > getTID(self.lastTransaction(), None)):''')
+breaker('C05', 'undo-abort-hands-the-raw-transaction', 'C05.R8', DBPY,
+        'TransactionalUndo.tpc_abort',
+        '''            transaction = transaction.data(self)
+            self._storage.tpc_abort(transaction)''',
+        '''            self._storage.tpc_abort(transaction)''')
